@@ -1,7 +1,9 @@
 import Iauthd.Addr.Spec
 import Drv.Util
 /-
-  drv_addr model|pinned        < ops                    one record per op line (harness syntax)
+  drv_addr model [ntop-pinned] [pton-fixed] < ops       one record per op line (harness syntax);
+                                                        default = repaired printer, parser as in the repository
+  drv_addr pinned              < ops                    = model ntop-pinned
   drv_addr spec                < ops                    the functional parts of the spec
   drv_addr judge C12|C13       < "op<TAB>record" lines  `ok …` / `FAIL <clause> …` per line
 -/
@@ -46,8 +48,9 @@ def flags? (f : String) : Option (Bool × Bool) :=
 def cstrOfHex (h : String) : Option Bytes :=
   if h == "-" then none else some (Bytes.cstr (Bytes.ofHex h))
 
-def modelLine (pinned : Bool) (line : String) : String :=
+def modelLine (pinned : Bool) (fx : Bool) (line : String) : String :=
   let ntopF := if pinned then ntopPinned else ntop
+  let pton := ptonWith fx
   match fields line with
   | "ntop" :: rest =>
     if rest.length ≠ 9 then "bad-op" else
@@ -157,8 +160,8 @@ def main (args : List String) : IO UInt32 := do
   let mode := args.headD "model"
   let f : String → String ←
     match mode with
-    | "model" => pure (modelLine false)
-    | "pinned" => pure (modelLine true)
+    | "model" => pure (modelLine (args.contains "ntop-pinned") (args.contains "pton-fixed"))
+    | "pinned" => pure (modelLine true false)
     | "spec" => pure specLine
     | "judge" => pure (judgeLine (args.getD 1 "C12"))
     | _ => do IO.eprintln "usage: drv_addr model|pinned|spec|judge <Cnn>"; return 2
